@@ -683,3 +683,64 @@ func firstIf(b *ast.BlockStmt) (*ast.IfStmt, bool) {
 	i, ok := b.List[0].(*ast.IfStmt)
 	return i, ok
 }
+
+// ---- C15.R8 (encoder side) shadowed fields are pruned at every embedding depth ----
+
+// When a struct declares a key that an embedded struct also has, the embedded one is hidden.
+// structCode prunes the embedded struct with removeFieldsByTags(tags of the outer struct); for the
+// "shallowest wins" rule to hold two or more levels down, removeFieldsByTags has to visit the
+// anonymous struct fields of the struct it prunes with the same tags (a recursive call under an
+// isAnonymous test), and drop by tags.ExistsKey.
+func c15r8(rc *core.RC) {
+	p := rc.P
+	fd := p.Func("encoder", "StructCode.removeFieldsByTags")
+	key := "encoder.(*StructCode).removeFieldsByTags/nested-embedded"
+	if fd == nil {
+		rc.Unknown(key, token.NoPos, "not found")
+		return
+	}
+	rc.Touch("encoder.(*StructCode).removeFieldsByTags")
+	info := p.Info(fd)
+	self, _ := info.Defs[fd.Name].(*types.Func)
+	var tagsParam types.Object
+	for _, f := range fd.Type.Params.List {
+		for _, nm := range f.Names {
+			tagsParam = info.Defs[nm]
+		}
+	}
+	recursive, drops := false, false
+	ast.Inspect(fd.Body, func(m ast.Node) bool {
+		switch x := m.(type) {
+		case *ast.IfStmt:
+			if !strings.Contains(core.Src(p.Fset, x.Cond), "isAnonymous") {
+				return true
+			}
+			ast.Inspect(x.Body, func(k ast.Node) bool {
+				if c, ok := k.(*ast.CallExpr); ok && core.Callee(info, c) == self && len(c.Args) == 1 && core.ObjOf(info, c.Args[0]) == tagsParam {
+					recursive = true
+				}
+				return true
+			})
+		case *ast.CallExpr:
+			if sel, ok := x.Fun.(*ast.SelectorExpr); ok && sel.Sel.Name == "ExistsKey" && core.ObjOf(info, sel.X) == tagsParam {
+				drops = true
+			}
+		}
+		return true
+	})
+	rc.Check(recursive, key, fd.Pos(), "anonymous struct fields of the pruned struct are pruned with the same tags (recursive call under an isAnonymous test): a key declared by the outer struct hides the same key at every embedding depth")
+	rc.Check(drops, "encoder.(*StructCode).removeFieldsByTags/drops-by-key", fd.Pos(), "fields whose key exists among the outer struct's tags are dropped")
+	// and the compiler applies it to every anonymous field
+	sc := p.Func("encoder", "Compiler.structCode")
+	applied := false
+	if sc != nil {
+		sinfo := p.Info(sc)
+		ast.Inspect(sc.Body, func(m ast.Node) bool {
+			if c, ok := m.(*ast.CallExpr); ok && core.Callee(sinfo, c) == self {
+				applied = true
+			}
+			return true
+		})
+	}
+	rc.Check(applied, "encoder.(*Compiler).structCode/prunes-embedded", token.NoPos, "structCode prunes each embedded struct with the outer struct's tags")
+}
